@@ -207,6 +207,9 @@ func calleeName(cc *ssa.CallCommon) string {
 	case *ssa.MakeClosure:
 		return ssaFuncKey(f.Fn.(*ssa.Function))
 	}
+	if h := resolveCallee(cc); h != nil {
+		return ssaFuncKey(h)
+	}
 	return ""
 }
 
